@@ -68,11 +68,13 @@ def check_case(case):
     no, cc, cell, tier = case["no"], case["cc"], case["cell"], case["tier"]
     g = sg.sg(sgno=no, cell_choice=cc)
     shells = SHELLS[tier]
+    if case.get("big"):
+        shells = [(0.0, 0.0045), (0.002, 0.0036)]
     orc = G.Oracle(g, cell, max(s[1] for s in shells))
     Gi = O.recip_metric(cell)
     base = "%s:Sg%d/%s:cell=%s" % (case["mod"], no, cc, cell)
     if case.get("big"):
-        shells = [(0.0, 0.0045), (0.002, 0.0036)]
+        pass
     elif case.get("cellkinds"):
         shells = shells[:2]
     elif not case.get("far", True):
